@@ -148,7 +148,7 @@ def keep_names():
     if _KEEP is None:
         import re
         names = set()
-        rx = re.compile(r"([A-Za-z_][A-Za-z0-9_]*::[A-Za-z_][A-Za-z0-9_#]*)(?:<[^>()]*>)?\(")
+        rx = re.compile(r"([A-Za-z_][A-Za-z0-9_]*::[A-Za-z_][A-Za-z0-9_#]*)(?:<[^>()]*>)?(?=[(,)])")
         for root, _d, fs in os.walk(os.path.join(VERIF, "rules")):
             for f in fs:
                 if f.endswith(".py") or f.endswith(".json"):
